@@ -19,9 +19,9 @@ CONSTANTS Handlers,     \* set of positive integers
 
 VARIABLES live, lastRet, op
 
-None     == <<-2000, -2000>>
-MinusInf == <<-1000, -1000>>
-PlusInf  == <<1000, 1000>>
+None     == <<-2000000, -2000000>>
+MinusInf == <<-1000000, -1000000>>
+PlusInf  == <<1000000, 1000000>>
 
 TLt(s, t) == s[1] < t[1] \/ (s[1] = t[1] /\ s[2] < t[2])
 TLe(s, t) == ~TLt(t, s)
